@@ -273,7 +273,7 @@ func timed(c *vf.Ctx, name string, f func()) {
 }
 
 func reportPanic(c *vf.Ctx, part, state string, in []byte, v any, stack string) {
-	c.Violation(fmt.Sprintf("Receive panics: %v [%s]", v, otrFrames(stack)),
+	c.Violation(panicClass("Receive", v, stack, nil),
 		map[string]any{"pass": "T", "part": part, "state": state, "input": clip(in), "panic": fmt.Sprint(v), "stack": firstLines(stack, 30)})
 }
 
@@ -665,7 +665,7 @@ func craftedSequences(c *vf.Ctx) {
 					for _, kk := range seq[:i+1] {
 						names = append(names, al[kk].name)
 					}
-					c.Violation(fmt.Sprintf("Receive panics: %v [%s]", v, otrFrames(st)),
+					c.Violation(panicClass("Receive", v, st, nil),
 						map[string]any{"pass": "T", "part": "crafted message sequences", "start_state": s.name, "sequence": names, "last_input": clip(al[k].wire), "panic": fmt.Sprint(v), "stack": firstLines(st, 30)})
 					break
 				}
@@ -797,7 +797,7 @@ func craftedSMP(c *vf.Ctx) {
 			var wire [][]byte
 			p, v, st := vf.Protect(func() { wire, _ = from.conv.Send(body) })
 			if p {
-				e.panicked("Send", v, st, nil)
+				e.panicked("Send", v, st, from.conv, nil)
 				flush(c, e)
 				e = nil
 				continue
@@ -807,7 +807,7 @@ func craftedSMP(c *vf.Ctx) {
 				r := protectedReceive(to.conv, w)
 				c.Transition(1)
 				if r.panicked {
-					c.Violation(fmt.Sprintf("Receive panics: %v [%s]", r.pval, otrFrames(r.stack)), map[string]any{"pass": "T", "part": "crafted SMP TLVs from the authenticated peer",
+					c.Violation(panicClass("Receive", r.pval, r.stack, nil), map[string]any{"pass": "T", "part": "crafted SMP TLVs from the authenticated peer",
 						"smp_state": k.s.name, "tlv_type": k.t, "payload": k.pl.name, "panic": fmt.Sprint(r.pval), "stack": firstLines(r.stack, 30)})
 					e = nil
 					break
@@ -825,7 +825,7 @@ func craftedSMP(c *vf.Ctx) {
 				for _, rep := range r.toSend {
 					rr := protectedReceive(from.conv, rep)
 					if rr.panicked {
-						c.Violation(fmt.Sprintf("Receive panics: %v [%s]", rr.pval, otrFrames(rr.stack)), map[string]any{"pass": "T", "part": "reply to a crafted SMP TLV", "panic": fmt.Sprint(rr.pval)})
+						c.Violation(panicClass("Receive", rr.pval, rr.stack, nil), map[string]any{"pass": "T", "part": "reply to a crafted SMP TLV", "panic": fmt.Sprint(rr.pval)})
 						e = nil
 					}
 				}
